@@ -24,7 +24,7 @@ func ts(ns int64) time.Time { return time.Unix(0, ns).UTC() }
 
 // The same instant can be carried by different time.Time values: another Location, or a value
 // derived from time.Now() that carries a monotonic clock reading.  The property is about
-// instants, so behaviour must not depend on the representation; the wire format (UnixNano) and
+// instants, so behaviour must not depend on the representation; the wire format (seconds + nanoseconds) and
 // the model see the instant only.
 var reprNames = []string{"UTC", "FixedZone+01:00", "FixedZone-07:30", "Local", "monotonic"}
 var zoneEast = time.FixedZone("east", 3600)
@@ -46,14 +46,40 @@ func tsRepr(ns int64, mode int) time.Time {
 	return u.UTC()
 }
 
-// tq renders the query time of a case: the representation rotates deterministically
+// tq renders the query time of a case: the representation rotates deterministically.
+// Instants outside the int64-nanosecond range (1677..2262) cannot be written as ns: the
+// generator registers them under sentinel keys in farTimes.
 var tqCounter int
+var farTimes = map[int64]time.Time{}
+
+const farKey = int64(1) << 62
+
+func far(i int, t time.Time) int64 { k := farKey + int64(i); farTimes[k] = t; return k }
 
 func tq(ns int64) (time.Time, string) {
+	if t, ok := farTimes[ns]; ok {
+		return t, "UTC (outside the int64 nanosecond range)"
+	}
 	tqCounter++
 	m := tqCounter % len(reprNames)
 	return tsRepr(ns, m), reprNames[m]
 }
+
+// encTime writes an instant as seconds and nanoseconds (the model's time is sec*10^9+nsec in Z)
+func encTime(c *wire.Case, t time.Time) { c.Int(t.Unix()).Int(int64(t.Nanosecond())) }
+
+// relTime describes an instant for replays: ns relative to base when representable
+func relTime(t time.Time) interface{} {
+	if y := t.Year(); y > 1700 && y < 2200 {
+		return t.UnixNano() - base
+	}
+	return t.UTC().Format(time.RFC3339Nano)
+}
+
+// wayMeta: Timestamp / Committed of the ways and relations built for the current case (the
+// property does not depend on them; an implementation must not either)
+var wayStamp time.Time
+var wayCommitted *time.Time
 
 var roles = []string{"outer", "inner", "", "other"}
 var types = []osm.Type{osm.TypeNode, osm.TypeWay, osm.TypeRelation}
@@ -80,7 +106,7 @@ func typeCode(t osm.Type) int64 {
 func encUpdates(c *wire.Case, us osm.Updates) {
 	c.Len(len(us))
 	for _, u := range us {
-		c.Int(int64(u.Index)).Int(int64(u.Version)).Int(u.Timestamp.UnixNano()).Int(int64(u.ChangesetID)).
+		c.Int(int64(u.Index)).Int(int64(u.Version)).Int(u.Timestamp.Unix()).Int(int64(u.Timestamp.Nanosecond())).Int(int64(u.ChangesetID)).
 			Int(int64(u.Lat)).Int(int64(u.Lon)).Bool(u.Reverse)
 	}
 }
@@ -109,7 +135,7 @@ func encPoints(c *wire.Case, ls orb.LineString) {
 type dUpd struct {
 	Index, Version int
 	Repr           string `json:",omitempty"`
-	TS             int64
+	TS             interface{}
 	CS             int64
 	Lat, Lon       int64
 	Rev            bool `json:",omitempty"`
@@ -140,7 +166,7 @@ func descUpdates(us osm.Updates) []dUpd {
 		if u.Timestamp != u.Timestamp.Round(0) {
 			repr = "monotonic"
 		}
-		r = append(r, dUpd{u.Index, u.Version, repr, u.Timestamp.UnixNano() - base, int64(u.ChangesetID), int64(u.Lat), int64(u.Lon), u.Reverse})
+		r = append(r, dUpd{u.Index, u.Version, repr, relTime(u.Timestamp), int64(u.ChangesetID), int64(u.Lat), int64(u.Lon), u.Reverse})
 	}
 	return r
 }
@@ -208,10 +234,10 @@ func applyRel(r *osm.Relation, t time.Time) (o obs) {
 
 func cloneUpdates(us osm.Updates) osm.Updates { return append(osm.Updates(nil), us...) }
 func cloneWay(ns osm.WayNodes, us osm.Updates) *osm.Way {
-	return &osm.Way{ID: 7, Version: 1, Nodes: append(osm.WayNodes(nil), ns...), Updates: cloneUpdates(us)}
+	return &osm.Way{ID: 7, Version: 1, Timestamp: wayStamp, Committed: wayCommitted, Nodes: append(osm.WayNodes(nil), ns...), Updates: cloneUpdates(us)}
 }
 func cloneRel(ms osm.Members, us osm.Updates) *osm.Relation {
-	return &osm.Relation{ID: 9, Version: 1, Members: append(osm.Members(nil), ms...), Updates: cloneUpdates(us)}
+	return &osm.Relation{ID: 9, Version: 1, Timestamp: wayStamp, Committed: wayCommitted, Members: append(osm.Members(nil), ms...), Updates: cloneUpdates(us)}
 }
 
 func (o obs) enc(c *wire.Case, rel bool) {
@@ -243,24 +269,45 @@ func applyCase(rel bool, t int64, ns osm.WayNodes, ms osm.Members, us osm.Update
 	c := &wire.Case{}
 	var o obs
 	tv, tname := tq(t)
+	aliasFail := ""
 	if rel {
 		c.Class = "apply-relation"
-		c.Int(2).Int(t)
+		c.Int(2)
+		encTime(c, tv)
 		encMembers(c, ms)
 		encUpdates(c, us)
-		o = applyRel(cloneRel(ms, us), tv)
+		// an ordinary copy: cp := *r with cloned members but the SAME update list
+		orig := cloneRel(ms, us)
+		snap := cloneUpdates(orig.Updates)
+		cp := *orig
+		cp.Members = append(osm.Members(nil), orig.Members...)
+		o = applyRel(&cp, tv)
+		if !sameUpdates(orig.Updates, snap) {
+			aliasFail = "ApplyUpdatesUpTo on a copy (cp := *r) changed the update list of the original relation"
+		}
 	} else {
 		c.Class = "apply-way"
-		c.Int(1).Int(t)
+		c.Int(1)
+		encTime(c, tv)
 		encNodes(c, ns)
 		encUpdates(c, us)
-		o = applyWay(cloneWay(ns, us), tv)
+		orig := cloneWay(ns, us)
+		snap := cloneUpdates(orig.Updates)
+		cp := *orig
+		cp.Nodes = append(osm.WayNodes(nil), orig.Nodes...)
+		o = applyWay(&cp, tv)
+		if !sameUpdates(orig.Updates, snap) {
+			aliasFail = "ApplyUpdatesUpTo on a copy (cp := *w) changed the update list of the original way"
+		}
 	}
 	if mut != nil {
 		mut(&o)
+	} else if aliasFail != "" {
+		c.OracleFail = aliasFail
 	}
 	o.enc(c, rel)
-	d := map[string]interface{}{"op": "ApplyUpdatesUpTo", "t": t - base, "t_representation": tname, "updates": descUpdates(us), "observed": o.desc(rel), "note": "timestamps are ns relative to 2017-07-14T02:40:00Z"}
+	d := map[string]interface{}{"op": "ApplyUpdatesUpTo (on a copy sharing the update list)", "t": relTime(tv), "t_representation": tname, "updates": descUpdates(us), "observed": o.desc(rel),
+		"element_timestamp": relTime(wayStamp), "note": "timestamps are ns relative to 2017-07-14T02:40:00Z"}
 	if rel {
 		d["members"] = descMembers(ms)
 	} else {
@@ -268,6 +315,18 @@ func applyCase(rel bool, t int64, ns osm.WayNodes, ms osm.Members, us osm.Update
 	}
 	c.Desc = d
 	return c
+}
+
+func sameUpdates(a, b osm.Updates) bool {
+	if len(a) != len(b) {
+		return false
+	}
+	for i := range a {
+		if a[i] != b[i] {
+			return false
+		}
+	}
+	return true
 }
 
 func sameObs(a, b obs, rel bool) bool {
@@ -330,9 +389,12 @@ func composeCase(rel bool, t1, t2 int64, ns osm.WayNodes, ms osm.Members, us osm
 	var a1, a2, b obs
 	tv1, n1 := tq(t1)
 	tv2, n2 := tq(t2)
+	ordered := !tv1.After(tv2)
 	if rel {
 		c.Class = "compose-relation"
-		c.Int(1).Int(t1).Int(t2)
+		c.Int(1)
+		encTime(c, tv1)
+		encTime(c, tv2)
 		encMembers(c, ms)
 		encUpdates(c, us)
 		r := cloneRel(ms, us)
@@ -344,7 +406,9 @@ func composeCase(rel bool, t1, t2 int64, ns osm.WayNodes, ms osm.Members, us osm
 		}
 		b = applyRel(cloneRel(ms, us), tv2)
 	} else {
-		c.Int(0).Int(t1).Int(t2)
+		c.Int(0)
+		encTime(c, tv1)
+		encTime(c, tv2)
 		encNodes(c, ns)
 		encUpdates(c, us)
 		w := cloneWay(ns, us)
@@ -362,10 +426,10 @@ func composeCase(rel bool, t1, t2 int64, ns osm.WayNodes, ms osm.Members, us osm
 	a1.enc(c, rel)
 	a2.enc(c, rel)
 	b.enc(c, rel)
-	if mut == nil && perIndexSorted(us) && t1 <= t2 && a1.Status == 0 && !sameObs(a2, b, rel) {
+	if mut == nil && perIndexSorted(us) && ordered && a1.Status == 0 && !sameObs(a2, b, rel) {
 		c.OracleFail = "apply up to t1 then t2 differs from applying up to t2 directly"
 	}
-	d := map[string]interface{}{"op": "ApplyUpdatesUpTo(t1) then (t2) versus (t2) on a copy", "t1": t1 - base, "t2": t2 - base, "t_representations": []string{n1, n2},
+	d := map[string]interface{}{"op": "ApplyUpdatesUpTo(t1) then (t2) versus (t2) on a copy", "t1": relTime(tv1), "t2": relTime(tv2), "t_representations": []string{n1, n2},
 		"updates": descUpdates(us), "per_index_time_sorted": perIndexSorted(us),
 		"after_t1": a1.desc(rel), "then_t2": a2.desc(rel), "direct_t2": b.desc(rel)}
 	if rel {
@@ -380,14 +444,14 @@ func composeCase(rel bool, t1, t2 int64, ns osm.WayNodes, ms osm.Members, us osm
 
 func annotated(n osm.WayNode) bool { return n.Version != 0 || n.Lon != 0 || n.Lat != 0 }
 
-func lsatHyp(t int64, ns osm.WayNodes, us osm.Updates) bool {
+func lsatHyp(tv time.Time, ns osm.WayNodes, us osm.Updates) bool {
 	for _, n := range ns {
 		if !annotated(n) {
 			return false
 		}
 	}
 	for _, u := range us {
-		if u.Timestamp.After(ts(t)) {
+		if u.Timestamp.After(tv) {
 			continue
 		}
 		if u.Index < 0 || u.Index >= len(ns) || !(u.Version != 0 || u.Lon != 0 || u.Lat != 0) {
@@ -409,11 +473,12 @@ func lineStringAt(w *osm.Way, t time.Time) (ls orb.LineString, panicked bool) {
 // lsatCase: tag 4.
 func lsatCase(t int64, ns osm.WayNodes, us osm.Updates, mut func(*orb.LineString)) *wire.Case {
 	c := &wire.Case{Class: "linestring-at"}
-	c.Int(4).Int(t)
+	tv, tname := tq(t)
+	c.Int(4)
+	encTime(c, tv)
 	encNodes(c, ns)
 	encUpdates(c, us)
 	w := cloneWay(ns, us)
-	tv, tname := tq(t)
 	at, panicked := lineStringAt(w, tv)
 	at = append(orb.LineString(nil), at...)
 	// the query must not modify the way
@@ -428,7 +493,7 @@ func lsatCase(t int64, ns osm.WayNodes, us osm.Updates, mut func(*orb.LineString
 	encPoints(c, at)
 	c.Int(int64(o.Status))
 	encPoints(c, ls)
-	hyp := lsatHyp(t, ns, us)
+	hyp := lsatHyp(tv, ns, us)
 	if mut == nil && hyp {
 		same := !panicked && o.Status == 0 && len(at) == len(ls)
 		for i := 0; same && i < len(at); i++ {
@@ -442,7 +507,7 @@ func lsatCase(t int64, ns osm.WayNodes, us osm.Updates, mut func(*orb.LineString
 		c.OracleFail = "LineStringAt modified the way"
 	}
 	c.Trivial = !hyp || len(us) == 0
-	c.Desc = map[string]interface{}{"op": "LineStringAt(t) versus ApplyUpdatesUpTo(t)+LineString() on a copy", "t": t - base, "t_representation": tname,
+	c.Desc = map[string]interface{}{"op": "LineStringAt(t) versus ApplyUpdatesUpTo(t)+LineString() on a copy", "t": relTime(tv), "t_representation": tname, "element_timestamp": relTime(wayStamp),
 		"nodes": descNodes(ns), "updates": descUpdates(us), "hypotheses_hold": hyp,
 		"LineStringAt": descPoints(at), "LineStringAt_panicked": panicked, "apply_status": o.Status, "applied_LineString": descPoints(ls)}
 	return c
@@ -451,16 +516,17 @@ func lsatCase(t int64, ns osm.WayNodes, us osm.Updates, mut func(*orb.LineString
 // uptoCase: tag 5.
 func uptoCase(t int64, us osm.Updates, mut func(*osm.Updates)) *wire.Case {
 	c := &wire.Case{Class: "upto"}
-	c.Int(5).Int(t)
+	tv, tname := tq(t)
+	c.Int(5)
+	encTime(c, tv)
 	encUpdates(c, us)
 	in := cloneUpdates(us)
-	tv, tname := tq(t)
 	out := in.UpTo(tv)
 	if mut != nil {
 		mut(&out)
 	}
 	encUpdates(c, out)
-	c.Desc = map[string]interface{}{"op": "Updates.UpTo", "t": t - base, "t_representation": tname, "updates": descUpdates(us), "observed": descUpdates(out)}
+	c.Desc = map[string]interface{}{"op": "Updates.UpTo", "t": relTime(tv), "t_representation": tname, "updates": descUpdates(us), "observed": descUpdates(out)}
 	c.Trivial = len(us) == 0
 	return c
 }
@@ -504,7 +570,9 @@ func group(ms osm.Members, ways map[osm.WayID]*osm.Way, at time.Time) (o, i []os
 // groupCase: tag 7.
 func groupCase(at int64, ms osm.Members, ws []gway, mut func(o, i []osmgeojson.VerifC15Segment)) *wire.Case {
 	c := &wire.Case{Class: "group"}
-	c.Int(7).Int(at)
+	atv, atname := tq(at)
+	c.Int(7)
+	encTime(c, atv)
 	encMembers(c, ms)
 	c.Len(len(ws))
 	ways := map[osm.WayID]*osm.Way{}
@@ -518,7 +586,6 @@ func groupCase(at int64, ms osm.Members, ws []gway, mut func(o, i []osmgeojson.V
 		ways[x.ID] = x
 		dw = append(dw, map[string]interface{}{"id": w.id, "nodes": descNodes(w.ns), "updates": descUpdates(w.us)})
 	}
-	atv, atname := tq(at)
 	outer, inner, tainted, panicked := group(append(osm.Members(nil), ms...), ways, atv)
 	if mut != nil {
 		mut(outer, inner)
@@ -534,7 +601,7 @@ func groupCase(at int64, ms osm.Members, ws []gway, mut func(o, i []osmgeojson.V
 		}
 	}
 	c.Bool(tainted)
-	c.Desc = map[string]interface{}{"op": "mputil.Group", "at": at - base, "at_representation": atname, "members": descMembers(ms), "ways": dw,
+	c.Desc = map[string]interface{}{"op": "mputil.Group", "at": relTime(atv), "at_representation": atname, "members": descMembers(ms), "ways": dw,
 		"outer": dsegs[0], "inner": dsegs[1], "tainted": tainted, "panicked": panicked}
 	c.Trivial = len(outer)+len(inner) == 0
 	return c
@@ -678,6 +745,45 @@ func (g *gen) updates(n, m int, pool []int64, order int, annotatedOnly bool, oob
 	return us
 }
 
+// meta sets Timestamp / Committed of the elements of the next cases: absent, or around the
+// update stamps (earlier, equal, later than some of them), Committed sometimes 45 s later
+func (g *gen) meta(pool []int64) {
+	wayStamp, wayCommitted = time.Time{}, nil
+	switch g.rng.Intn(4) {
+	case 0:
+		return
+	case 1:
+		wayStamp = ts(pool[g.rng.Intn(len(pool))])
+		g.w.Count("element-timestamp:equal-to-a-stamp")
+	case 2:
+		wayStamp = ts(pool[g.rng.Intn(len(pool))] + 1 + g.rng.Int63n(1e10))
+		g.w.Count("element-timestamp:after-a-stamp")
+	default:
+		wayStamp = ts(pool[g.rng.Intn(len(pool))] - 1 - g.rng.Int63n(1e10))
+		g.w.Count("element-timestamp:before-a-stamp")
+	}
+	if g.rng.Intn(3) == 0 {
+		c := wayStamp.Add(45 * time.Second)
+		wayCommitted = &c
+		g.w.Count("element-committed:set")
+	}
+}
+
+// instants outside 1677..2262 (UnixNano wraps there), the zero time.Time, and ordinary ones
+var farInstants = []time.Time{
+	{}, // year 1
+	time.Date(1600, 1, 1, 0, 0, 0, 0, time.UTC),
+	time.Date(1677, 9, 21, 0, 12, 43, 145224192, time.UTC), // MinInt64 ns
+	time.Date(1969, 12, 31, 23, 59, 59, 999999999, time.UTC),
+	time.Unix(0, 0).UTC(),
+	time.Unix(0, base).UTC(),
+	time.Date(2262, 4, 11, 23, 47, 16, 854775807, time.UTC), // MaxInt64 ns
+	time.Date(2262, 4, 11, 23, 47, 16, 854775808, time.UTC),
+	time.Date(2300, 1, 1, 0, 0, 0, 0, time.UTC),
+	time.Unix(1<<40, 0).UTC(),
+	time.Date(9999, 12, 31, 23, 59, 59, 999999999, time.UTC),
+}
+
 var orderName = []string{"index-sorted", "time-sorted", "shuffled"}
 
 func (g *gen) sizes() (n, m int) {
@@ -711,10 +817,12 @@ func main() {
 	rng := wire.Rng(a.Seed)
 	w := wire.NewWriter("C15", a.Seed, a.Tier)
 	g := &gen{rng: rng, w: w}
-	w.Rule = "ways/relations of 0-8 children with 0-30 updates drawn over a small pool of timestamps (equal stamps, 1 ns neighbours), stored index-sorted / time-sorted / shuffled, indices beyond the list (12%) and negative (3%), t from {a stamp, stamp+-1ns, before all, after all}; query times and half of the update stamps are carried by time.Time values in other representations of the same instant (two fixed zones, Local, a monotonic clock reading); compose cases use t1<=t2 (and some t1>t2); geometry cases are mostly fully annotated (hypotheses hold). distinct = distinct token streams; trivial = no updates / hypotheses of the agreement theorem not met / <2 elements to sort / no segment."
+	w.Rule = "ways/relations of 0-8 children with 0-30 updates drawn over a small pool of timestamps (equal stamps, 1 ns neighbours), stored index-sorted / time-sorted / shuffled, indices beyond the list (12%) and negative (3%), t from {a stamp, stamp+-1ns, before all, after all}; query times and half of the update stamps are carried by time.Time values in other representations of the same instant (two fixed zones, Local, a monotonic clock reading); compose cases use t1<=t2 (and some t1>t2); the elements carry a Timestamp / Committed before, at or after update stamps (or none); every apply runs on an ordinary copy (cp := *w, cloned children, SHARED update list) and the original's list must stay as it was; after an index error the update list must be unchanged; a far-instants class uses the zero time, 1600, the int64-ns limits, 2300, Unix(2^40), 9999-12-31 for stamps and query times (times travel as seconds + nanoseconds); geometry cases are mostly fully annotated (hypotheses hold). distinct = distinct token streams; trivial = no updates / hypotheses of the agreement theorem not met / <2 elements to sort / no segment."
 	nApply, nCompose, nLsat, nUpto, nSort, nGroup := 220, 220, 320, 50, 80, 90
+	nFar := 100
 	if a.Tier == "thorough" {
 		nApply, nCompose, nLsat, nUpto, nSort, nGroup = 4000, 4000, 6000, 500, 1000, 1500
+		nFar = 2000
 	}
 	sc := func(x int) int { return int(float64(x) * a.Scale) }
 
@@ -772,6 +880,7 @@ func main() {
 		w.Count("order:" + orderName[order])
 		us := g.updates(n, m, pool, order, false, g.oob())
 		t := g.pickT(pool)
+		g.meta(pool)
 		var c *wire.Case
 		if rel {
 			ms := g.members(n)
@@ -804,6 +913,7 @@ func main() {
 		if t1 > t2 && rng.Intn(6) != 0 {
 			t1, t2 = t2, t1
 		}
+		g.meta(pool)
 		var c *wire.Case
 		if rel {
 			ms := g.members(n)
@@ -834,11 +944,49 @@ func main() {
 		if n == 0 && fully {
 			us = nil
 		}
+		g.meta(pool)
 		c := lsatCase(g.pickT(pool), ns, us, nil)
 		w.Count("lsat-order:" + orderName[order])
 		if !c.Trivial {
 			w.Count("lsat:hypotheses-hold")
 		}
+		w.Add(c)
+	}
+	wayStamp, wayCommitted = time.Time{}, nil
+	// 4b. instants outside the int64 nanosecond range, the zero time, epoch neighbours
+	for i := 0; i < sc(nFar); i++ {
+		n := 1 + rng.Intn(4)
+		m := 1 + rng.Intn(6)
+		us := make(osm.Updates, m)
+		for k := range us {
+			us[k] = osm.Update{Index: rng.Intn(n), Version: 1 + rng.Intn(5), Timestamp: farInstants[rng.Intn(len(farInstants))],
+				ChangesetID: osm.ChangesetID(rng.Intn(50)), Lat: g.coord(), Lon: g.coord(), Reverse: rng.Intn(3) == 0}
+		}
+		if rng.Intn(2) == 0 {
+			sort.SliceStable(us, func(a, b int) bool { return us[a].Timestamp.Before(us[b].Timestamp) })
+		}
+		t := far(2*i, farInstants[rng.Intn(len(farInstants))])
+		t2 := far(2*i+1, farInstants[rng.Intn(len(farInstants))])
+		if farTimes[t].After(farTimes[t2]) {
+			t, t2 = t2, t
+		}
+		var c *wire.Case
+		switch i % 5 {
+		case 0:
+			c = applyCase(false, t, g.nodes(n, true), nil, us, nil)
+		case 1:
+			ms := g.members(n)
+			reverseOnlyWays(us, ms)
+			c = applyCase(true, t, nil, ms, us, nil)
+		case 2:
+			c = uptoCase(t, us, nil)
+		case 3:
+			c = lsatCase(t, g.nodes(n, true), us, nil)
+		default:
+			c = composeCase(false, t, t2, g.nodes(n, true), nil, us, nil)
+		}
+		c.Class = "far-instants"
+		c.Trivial = false
 		w.Add(c)
 	}
 	// 5. UpTo
@@ -883,8 +1031,10 @@ func main() {
 				ms[k].Role = roles[rng.Intn(3)]
 			}
 		}
+		g.meta(pool)
 		w.Add(groupCase(g.pickT(pool), ms, ws, nil))
 	}
+	wayStamp, wayCommitted = time.Time{}, nil
 
 	// canaries: one corrupted observation per observable class
 	{
